@@ -50,6 +50,7 @@ type gen struct {
 	pubs    int
 	tags    map[string]bool
 	maxSess int
+	removed map[int]bool
 }
 
 func (g *gen) pick(l []string) string { return l[g.r.IntN(len(l))] }
@@ -766,7 +767,7 @@ func Generate(profile string, seed uint64, idx int, maxOps, maxSess int) *Scenar
 		base, realms = "mixed", 2+r.IntN(2)
 	}
 	g := &gen{r: r, profile: base, sc: &Scenario{Name: fmt.Sprintf("%s-%d-%d", profile, seed, idx)}, realm: map[int]int{},
-		feats: map[int]map[string]bool{}, local: map[int]bool{}, req: map[int]int64{}, callees: map[int]bool{}, tags: map[string]bool{}, maxSess: maxSess}
+		feats: map[int]map[string]bool{}, local: map[int]bool{}, req: map[int]int64{}, callees: map[int]bool{}, tags: map[string]bool{}, maxSess: maxSess, removed: map[int]bool{}}
 	cfg := RealmCfg{Strict: g.chance(0.25), Disclose: g.chance(0.6), MetaStrict: g.chance(0.3), Kill: g.chance(0.8), Modify: g.chance(0.7)}
 	histSubs := 0
 	if base == "history" || g.chance(0.15) {
@@ -857,7 +858,10 @@ func Generate(profile string, seed uint64, idx int, maxOps, maxSess int) *Scenar
 			g.opLeave()
 		case x < w.sub+w.unsub+w.pub+w.reg+w.unreg+w.call+w.cancel+w.yield+w.leave+w.join:
 			if len(g.alive) < maxSess {
-				g.join(g.r.IntN(realms), false)
+				rl := g.r.IntN(realms)
+				if !g.removed[rl] {
+					g.join(rl, false)
+				}
 			}
 		case x < w.sub+w.unsub+w.pub+w.reg+w.unreg+w.call+w.cancel+w.yield+w.leave+w.join+w.tick:
 			g.opTick()
@@ -865,6 +869,27 @@ func Generate(profile string, seed uint64, idx int, maxOps, maxSess int) *Scenar
 			g.opMeta()
 		default:
 			g.opHistoryQuery(histSubs)
+		}
+		if realms > 1 && g.chance(0.015) {
+			// remove a realm (never realm 0), later traffic to it is refused;
+			// possibly add it again, empty
+			victim := 1 + g.r.IntN(realms-1)
+			if !g.removed[victim] {
+				g.sc.Ops = append(g.sc.Ops, Op{Kind: "rmrealm", Realm: victim})
+				g.removed[victim] = true
+				var keep []int
+				for _, s := range g.alive {
+					if g.realm[s] != victim {
+						keep = append(keep, s)
+					}
+				}
+				g.alive = keep
+				g.tag("remove-realm")
+			} else {
+				g.sc.Ops = append(g.sc.Ops, Op{Kind: "addrealm", Realm: victim})
+				g.removed[victim] = false
+				g.tag("add-realm")
+			}
 		}
 	}
 	// let every armed timer expire, then everybody leaves: the router must be empty
